@@ -201,6 +201,9 @@ class RunEnv:
                 xp=sx,
             )
             self.flow.on_draw = self._assume_inside
+        if self.cfg.get("dtype"):
+            # C15: the precision the user requests, as a string or as a dtype object
+            kw["dtype"] = sx.float32 if self.cfg["dtype"] == "obj32" else self.cfg["dtype"]
         pt = None
         if sampler_name == "EmceeSMC" and "preconditioning_transform" in kw:
             # NumpySMCSampler re-instantiates the transform on numpy; the harness keeps
